@@ -30,10 +30,15 @@ def contains(design, mname, target, memo=None):
     return False
 
 
-def healthy_equal_fresh(h, design, built, dname, offending, skip_top=None):
-    """Every module that does not contain the offending module must export exactly as in a fresh build."""
+def healthy_equal_fresh(h, design, built, dname, offending, skip_top=None, parents_first=False):
+    """Every module that does not contain the offending module must export exactly as in a fresh build.
+    `parents_first` exports in reverse dependency order, so that no healthy sub-module has been completed on its own
+    before a parent that shares it is tried."""
     fresh = fresh_packages(dname)
-    for m in design["modules"]:
+    order = list(design["modules"])
+    if parents_first:
+        order = order[::-1]
+    for m in order:
         if offending is not None and contains(design, m, offending):
             continue
         try:
@@ -105,9 +110,9 @@ def _bomb(item):
             if pkg != fresh_packages(dname)[top]:
                 return ("bad", "after removing the fault, the retried export differs from a fresh build")
             return ("ok", "equal")
-        if cont == "others":
+        if cont in ("others", "others_parents_first"):
             h.reset_elaborator()
-            r = unrelated_ok(h) or healthy_equal_fresh(h, design, built, dname, victim)
+            r = unrelated_ok(h) or healthy_equal_fresh(h, design, built, dname, victim, parents_first=(cont == "others_parents_first"))
             return ("bad", r) if r else ("ok", None)
     finally:
         h.reset_elaborator()
@@ -154,8 +159,8 @@ def _real(item):
             if core(msg1) not in msg2 and core(msg2) not in msg1:
                 return ("bad", f"{cls} at {site}: retry reports a different error: {msg2[:100]} (first: {msg1[:100]})", cls)
         return ("ok", None, cls)
-    if cont == "others":
-        r = unrelated_ok(h) or healthy_equal_fresh(h, base, built, dname, offending)
+    if cont in ("others", "others_parents_first"):
+        r = unrelated_ok(h) or healthy_equal_fresh(h, base, built, dname, offending, parents_first=(cont == "others_parents_first"))
         if r:
             return ("bad", f"{cls} at {site}: {r}", cls)
         # and the failed call still fails the same way afterwards
@@ -286,7 +291,7 @@ def run(ctx):
             victims = [m for m in design["modules"] if contains(design, top, m)]
             for pos in range(11):
                 for v in victims:
-                    for cont in ("retry", "disarm_retry", "others"):
+                    for cont in ("retry", "disarm_retry", "others", "others_parents_first"):
                         items.append((dname, top, pos, v, cont))
     res = ctx.pmap(_bomb, items, chunk=10)
     for it, (status, detail) in zip(items, res):
@@ -306,7 +311,7 @@ def run(ctx):
             stride = 1 if not ctx.quick else 2
             for k in range(ctx.seed % stride, n, stride):
                 for entry in ("to_proto",) if ctx.quick else ("elaborate", "to_proto", "netlist"):
-                    for cont in ("retry", "others", "repair"):
+                    for cont in ("retry", "others", "others_parents_first", "repair"):
                         ritems.append((dname, top, k, entry, cont))
     if ctx.quick:
         ctx.cap("real design faults: every 2nd classified mutant of each DAG (offset VERIF_SEED), entry point to_proto only, in the quick tier")
